@@ -464,6 +464,20 @@ def gen_ec(ctx):
             ctx.run("bip38_ec_decrypt", [r[1][1], pw], "valid")
             if i % 4 == 0:
                 ctx.run("bip38_ec_intermediate", [pw, ls, salt], "fields")       # scrypt memoised on the oracle side
+    # directed: seedb chosen (by search, passfactor known from the reference) so that the decrypted private key
+    # passfactor * factorb mod n starts with a zero byte (1 in 256: a key serialised without fixed width shows here)
+    for (enc0, pw, ls, salt, _sb, c) in gens[:ctx.n(2, 6)]:
+        has_ls = bool(ls)
+        oe = salt + ((ls[0] * 4096 + ls[1]).to_bytes(4, "big") if has_ls else b"")
+        pf = int.from_bytes(spec_passfactor(pw, oe, has_ls), "big")
+        for t in range(5000):
+            sb = hashlib.sha256(b"leading-zero-%d" % t).digest()[:24]
+            fb = int.from_bytes(hashlib.sha256(hashlib.sha256(sb).digest()).digest(), "big")
+            if (pf * fb % NORD) >> 248 == 0:
+                r = ctx.run("bip38_ec_generate", [pw, c, ls, salt, sb], "leading-zero-key")
+                if r[1] and r[1][0] == "ok":
+                    ctx.run("bip38_ec_decrypt", [r[1][1], pw], "leading-zero-key")
+                break
     # intermediate codes fed to GeneratePrivateKey directly, incl. damaged ones (no heavy KDF involved)
     for i in range(ctx.n(60, 1500)):
         if not gens:
